@@ -270,6 +270,88 @@ def run_variants(c, Pm):
     return res
 
 
+# ---- element-wise methods of the item classes (Vector, Pair, Matrix) -------------------------------------------------
+ITEM_OPS = {
+    'Vector': [('norm', lambda x: x.norm()), ('unit', lambda x: x.unit()), ('dot_self', lambda x: x.dot(x)),
+               ('norm_sq', lambda x: x.norm_sq()), ('to_scalar0', lambda x: x.to_scalar(0)),
+               ('element_mul', lambda x: x.element_mul(x))],
+    'Pair': [('norm', lambda x: x.norm()), ('swapxy', lambda x: x.swapxy()), ('rot90', lambda x: x.rot90()),
+             ('angle', lambda x: x.angle())],
+    'Matrix': [('is_diagonal_0', lambda x: x.is_diagonal()), ('is_diagonal_d', lambda x: x.is_diagonal(delta=0.01)),
+               ('is_diagonal_D', lambda x: x.is_diagonal(delta=1e-4)), ('transpose', lambda x: x.transpose()),
+               ('mul_self', lambda x: x * x), ('inverse', lambda x: x.inverse())],
+}
+
+
+def item_cases(rng, tier):
+    out = []
+    nper = 6 if tier == 'quick' else 60
+    for cls, ops in sorted(ITEM_OPS.items()):
+        for op, _ in ops:
+            for k in range(nper):
+                out.append({'kind': 'item', 'cls': cls, 'op': op, 'n': rng.choice([3, 4, 6]), 'seed': rng.randrange(2 ** 31),
+                            'masked': k % 2 == 1, 'layout': ('far', 'near', 'plain')[k % 3]})
+    return out
+
+
+def item_check(c, Pm):
+    """op(x) at the selected elements == unshrink(op(shrink(x))) there, under all switch settings; the elements that
+    the antimask leaves out are of a very different magnitude (seeded change C17-N: Matrix.is_diagonal(delta) took
+    its RMS over all matrices of the array)"""
+    Q = Pm.Qube
+    r = np.random.RandomState(c['seed'])
+    n = c['n']
+    item = {'Vector': (3,), 'Pair': (2,), 'Matrix': (2, 2)}[c['cls']]
+    V = np.round(r.uniform(-2, 2, (n,) + item), 3)
+    if c['cls'] == 'Matrix':
+        V[:, 0, 1] = r.choice([0., 0.004, 0.02, 0.3], n)       # off-diagonal terms around the thresholds
+        V[:, 1, 0] = r.choice([0., 0.004, 0.02], n)
+        V[:, 0, 0] = np.abs(V[:, 0, 0]) + 1.
+        V[:, 1, 1] = np.abs(V[:, 1, 1]) + 1.
+    am = r.uniform(0, 1, n) < 0.6
+    am[0], am[-1] = True, False
+    if c['layout'] == 'far':
+        V[~am] *= 1e6
+    elif c['layout'] == 'near':
+        V[~am] *= 1e-6
+    mask = (r.uniform(0, 1, n) < 0.3) if c['masked'] else False
+    fn = dict(ITEM_OPS[c['cls']])[c['op']]
+
+    def observe(q):
+        q = q if isinstance(q, Q) else Pm.Scalar(q)
+        m = np.broadcast_to(np.asarray(q._mask_), (n,))
+        v = np.broadcast_to(np.asarray(q._values_), (n,) + tuple(np.shape(q._values_))[len(q._shape_):])
+        return [(None if m[i] else np.asarray(v[i], float).round(12).tolist()) for i in range(n) if am[i]]
+    saved = (Q._DISABLE_SHRINKING, Q.DISABLE_CACHE, Q._IGNORE_UNSHRUNK_AS_CACHED)
+    try:
+        with warnings.catch_warnings():
+            warnings.simplefilter('ignore')
+            direct = observe(fn(getattr(Pm, c['cls'])(V.copy(), mask)))
+            for name, sw in (('shrunk', (False, False, False)), ('disabled', (True, False, False)),
+                             ('nocache', (False, True, False)), ('ignore_unshrunk', (False, False, True))):
+                Q._DISABLE_SHRINKING, Q.DISABLE_CACHE, Q._IGNORE_UNSHRUNK_AS_CACHED = sw
+                x = getattr(Pm, c['cls'])(V.copy(), mask)
+                y = fn(x.shrink(am))
+                y = y if isinstance(y, Q) else Pm.Scalar(y)
+                got = observe(y.unshrink(am))
+                if got != direct:
+                    return '%s differs from the direct evaluation at the selected elements: %s vs %s' % (name, str(got)[:120], str(direct)[:120])
+    except Exception as e:      # noqa
+        return 'raised %s: %s' % (type(e).__name__, str(e)[:100])
+    finally:
+        Q._DISABLE_SHRINKING, Q.DISABLE_CACHE, Q._IGNORE_UNSHRUNK_AS_CACHED = saved
+    return None
+
+
+def item_part(ctx, Pm):
+    for c in item_cases(ctx.rng, ctx.tier):
+        prob = item_check(c, Pm)
+        ctx.note_case({k: v for k, v in c.items() if k != 'seed'}, True)
+        ctx.count('item_class_op:%s.%s' % (c['cls'], c['op']))
+        if prob:
+            ctx.fail({'kind': 'item', 'cls': c['cls'], 'op': c['op'], 'problem': prob.split(' differs')[0][:40]}, c, {'problem': prob})
+
+
 def gen_cases(rng, tier):
     cases = []
     # model sub-space, exhaustive core: n <= 3, 2 leaves, all antimasks, all depth-1 expressions
@@ -374,6 +456,7 @@ def run(ctx):
     if ctx.ensure_library():
         ctx.prove(['theories/Props/C17.v'])
         ctx.effects_obligations()      # regenerated from the current source: see coq/obl/Eff_C17.v
+    item_part(ctx, P())
     cases = gen_cases(ctx.rng, ctx.tier)
     terms, tidx = [], []
     for ci, c in enumerate(cases):
@@ -429,6 +512,11 @@ def replay(path):
     if 'case' not in d:
         print(json.dumps(d, indent=1)[:4000])
         return 1
+    if d['case'].get('kind') == 'item':
+        prob = item_check(d['case'], Pm)
+        print(d['case'], '->', prob or 'ok')
+        print('property FAILS on this case' if prob else 'property holds on this case')
+        return 1 if prob else 0
     res = run_variants(d['case'], Pm)
     for k, v in res.items():
         print('%-16s %s' % (k, v))
